@@ -288,7 +288,7 @@ fn rewrites(name: &str, text: &str, project: &Project, rng: &mut Rng, per_kind: 
       let mut count: BTreeMap<&'static str, usize> = BTreeMap::new();
       for (kind, at, ins) in sites {
         let c = count.entry(kind).or_insert(0);
-        if *c >= per_kind {
+        if *c >= renames {
           continue;
         }
         *c += 1;
@@ -391,6 +391,11 @@ fn gen_base(seed: u64, i: u64, corpus: &Corpus) -> (String, Project, String, boo
     let mut p = Project::default();
     p.modules.extend(corpus.tests.iter().cloned());
     return ("tests.*".into(), p.with_std(), "tests.AllTests".into(), false);
+  }
+  if i % 10 == 2 {
+    // bounded generic classes / functions in every shape, values built by inference only
+    let text = vcore::exprgen::generic_zoo(&mut rng);
+    return (format!("generic zoo {i}"), Project::single("Zoo", &text).with_std(), "Zoo".into(), true);
   }
   if i % 5 == 1 {
     // every binder form in every binding construct, names reused in disjoint scopes
